@@ -1,2 +1,193 @@
+"""C11 deep rules: the CNF converters and the Ackermannizer interpreted on operator skeletons over
+opaque leaves; the clause set / result is decided model-by-model by enumeration of the leaves, the
+freshly introduced symbols and (for Ackermannization) the function tables over tiny domains."""
+import itertools
+
+from ..common import get_repo, parallel_map
+from .. import proc, refsem
+from ..proc import Shape, S, BOOL, INT
+from .. import simpcheck as sc
+
+BV1 = ("BV", 1)
+
+
+def _lits_ok(w, cnf):
+    for cl in cnf:
+        for lit in cl:
+            if not w.is_node(lit):
+                return "clause element %r is not a formula" % (lit,)
+            n = lit
+            if w.opname(n) == "NOT":
+                n = w.nargs(n)[0]
+            if not proc._is_atom(w, n):
+                return "clause element %s is not a literal" % sc.node_str(w, lit)
+    return None
+
+
+def _cnf_post(shape):
+    def post(w, f, cnf, facts):
+        try:
+            clauses = [list(cl) for cl in cnf]
+        except TypeError:
+            return proc.ProcResult(shape, "unsupported", "convert returned %r" % (cnf,))
+        why = _lits_ok(w, clauses)
+        if why:
+            return proc.ProcResult(shape, "shape", why)
+        nodes = [f] + [l for cl in clauses for l in cl]
+        syms = sc.collect_symbols(w, nodes)
+        orig = sc.collect_symbols(w, [f])
+        fresh = sorted(set(syms) - set(orig))
+        if len(fresh) > 10:
+            return proc.ProcResult(shape, "unsupported", "%d fresh symbols" % len(fresh))
+        n = 0
+        for asg in sc.assignments(w, [f], facts):
+            n += 1
+            fv = bool(sc.nodeval(w, f, asg))
+            sat_some = False
+            for combo in itertools.product([False, True], repeat=len(fresh)):
+                a2 = dict(asg)
+                a2.update(("sym:" + k, v) for k, v in zip(fresh, combo))
+                cv = all(any(bool(sc.nodeval(w, l, a2)) for l in cl) for cl in clauses)
+                if cv and not fv:
+                    return proc.ProcResult(shape, "invalid",
+                                           "the clause set is satisfied by %s extended with %s, but the input is false there"
+                                           % (sc._show(asg), dict(zip(fresh, combo))), _cnf_str(w, clauses))
+                sat_some = sat_some or cv
+            if fv and not sat_some:
+                return proc.ProcResult(shape, "invalid",
+                                       "the input is true under %s but no value of the introduced symbols %s satisfies the clause set"
+                                       % (sc._show(asg), fresh), _cnf_str(w, clauses))
+        return proc.ProcResult(shape, "valid", "%d valuations x 2^%d definitions" % (n, len(fresh)), _cnf_str(w, clauses))
+    return post
+
+
+def _cnf_str(w, clauses):
+    return "{" + ", ".join("{" + ", ".join(sorted(sc.node_str(w, l) for l in cl)) + "}" for cl in clauses)[:300] + "}"
+
+
+def _cnf_job(job):
+    cls, shape = job
+
+    def call(w, it, f):
+        wk = w.new_walker(cls, w.env)
+        return it.call(it.getattr(wk, "convert"), [f])
+    res = proc.run_proc(shape, call, post=_cnf_post(shape))
+    return [(cls.split(".")[-1], repr(shape), r.kind, str(r.detail), r.result) for r in res]
+
+
+def _has_fun(w, n):
+    stack = [n]
+    while stack:
+        x = stack.pop()
+        if w.opname(x) == "FUNCTION":
+            return x
+        stack.extend(w.nargs(x))
+    return None
+
+
+def _ack_job(shape):
+    def call(w, it, f):
+        wk = w.new_walker("pysmt.rewritings.Ackermannizer", w.env)
+        return it.call(it.getattr(wk, "do_ackermannization"), [f])
+
+    def post(w, f, r, facts):
+        if not w.is_node(r):
+            return None
+        leak = _has_fun(w, r)
+        rs = sc.node_str(w, r)
+        if leak is not None:
+            return proc.ProcResult(shape, "shape", "the application %s survives Ackermannization" % sc.node_str(w, leak), rs)
+        orig = sc.collect_symbols(w, [f])
+        allr = sc.collect_symbols(w, [r])
+        fresh = sorted(set(allr) - set(orig))
+        funs = sorted(k for k, s in orig.items() if s[0] == "FUN")
+        # (1) every model of the input extends to the fresh constants
+        n = 0
+        for asg in sc.assignments(w, [f], facts):
+            n += 1
+            if not sc.nodeval(w, f, asg):
+                continue
+            doms = [refsem.domain(allr[k]) for k in fresh]
+            if not any(sc.nodeval(w, r, dict(asg, **dict(("sym:" + k, v) for k, v in zip(fresh, combo))))
+                       for combo in itertools.product(*doms)):
+                return proc.ProcResult(shape, "invalid", "a model of the input (%s) cannot be extended to the "
+                                       "Ackermann constants" % sc._show_asg(asg) if hasattr(sc, "_show_asg") else str(asg), rs)
+        # (2) every model of the result comes from some interpretation of the functions
+        models_in = set()
+        plain = sorted(k for k in orig if k not in funs)
+        for asg in sc.assignments(w, [f], facts):
+            if sc.nodeval(w, f, asg):
+                models_in.add(tuple(asg["sym:" + k] for k in plain))
+        for asg in sc.assignments(w, [r], facts):
+            if sc.nodeval(w, r, asg):
+                key = tuple(asg.get("sym:" + k) for k in plain)
+                if None in key:
+                    continue
+                if key not in models_in:
+                    return proc.ProcResult(shape, "invalid",
+                                           "the result is satisfied with %s but no interpretation of %s satisfies the input "
+                                           "with these values" % (dict(zip(plain, key)), funs), rs)
+        return proc.ProcResult(shape, "valid", "%d interpretations" % n, rs)
+    res = proc.run_proc(shape, call, post=post)
+    return [("Ackermannizer", repr(shape), r.kind, str(r.detail), r.result) for r in res]
+
+
+def ack_shapes():
+    x, y = S("x", BV1), S("y", BV1)
+
+    def f(t):
+        return ("fun", "f", BV1, (BV1,), t)
+
+    def g(t):
+        return ("fun", "g", BV1, (BV1,), t)
+
+    def pb(t):
+        return ("fun", "p", BOOL, (BV1,), t)
+    sh = [("Equals", f(x), f(y)), ("Not", ("Equals", f(x), f(y))),
+          ("And", ("Equals", x, y), ("Not", ("Equals", f(x), f(y)))),
+          ("Not", ("Equals", f(g(x)), f(g(y)))),
+          ("And", ("Equals", x, y), ("Not", ("Equals", f(g(x)), f(g(y))))),
+          ("And", ("Equals", x, y), ("Not", ("Equals", f(("BVNot", g(x))), f(("BVNot", g(y)))))),
+          ("Iff", pb(x), ("Not", pb(y))), ("And", ("Equals", x, y), pb(x), ("Not", pb(y))),
+          ("Equals", f(f(x)), x), ("And", ("Equals", f(x), y), ("Equals", f(y), x), ("Not", ("Equals", f(f(x)), x))),
+          ("Equals", x, y)]
+    return [Shape(t) for t in sh]
+
+
 def run(ctx):
-    pass
+    if not ctx.want("R1"):
+        return
+    rs = ctx.rule("R1", "CNF converters: the clause set is equisatisfiable with the input model-by-model (per skeleton)")
+    shapes = proc.boolean_shapes()
+    a, b, c = S("a"), S("b"), S("c")
+    shared = ("Or", a, b)
+    shapes += [Shape(("And", shared, ("Iff", shared, c))), Shape(("Or", ("And", a, b), ("And", ("Not", a), c))),
+               Shape(("Implies", ("Iff", a, b), ("Iff", b, a))), Shape(("Not", ("Not", a))), Shape(a),
+               Shape(("lit", True, BOOL)), Shape(("lit", False, BOOL)), Shape(("And", a, ("Not", a)))]
+    jobs = []
+    for sh in shapes:
+        jobs.append(("pysmt.rewritings.CNFizer", sh))
+        jobs.append(("pysmt.rewritings.PolarityCNFizer", sh))
+    outs = parallel_map(_cnf_job, jobs)
+    rs3 = ctx.rule("R3d", "Ackermannization: no application left; models correspond (functions over 1-bit domains)")
+    outs_a = parallel_map(_ack_job, ack_shapes())
+    for which, outs_, rule in ((None, outs, rs), (None, outs_a, rs3)):
+        for res in outs_:
+            for name, shape, kind, detail, result in res:
+                key = "%s|%s" % (name, shape)
+                if kind == "valid":
+                    rule.ok({"procedure": name, "shape": shape, "result": (result or "")[:160], "checked": detail})
+                elif kind == "vacuous":
+                    continue
+                elif kind in ("invalid", "shape", "sort"):
+                    ctx.finding(rule, key + "|" + kind, "%s(%s): %s [result %s]" % (name, shape, detail, (result or "")[:200]),
+                                "pysmt/rewritings.py")
+                elif kind == "raises":
+                    if "NotImplementedError" in detail:
+                        rule.unrec("%s(%s) raises %s" % (name, shape, detail))
+                    else:
+                        ctx.finding(rule, key + "|raises", "%s(%s) raises %s" % (name, shape, detail), "pysmt/rewritings.py")
+                else:
+                    rule.unrec("%s(%s): %s" % (name, shape, detail[:120]))
+    ctx.floor(rs, 200)
+    ctx.floor(rs3, 7)
